@@ -195,6 +195,29 @@ func checkC08(r *Result) {
 				r.check(strings.HasPrefix(a.Op, "field:x/oracle/types.MicroReport.BlockNumber"), "FLAG-ONLY", "(x/oracle/keeper.Keeper).FlagAggregateReport # candidates are the aggregates of the report's block", P.Pos(cs.Pos()), "index key: "+a.Brief())
 			}
 		}
+		// the walk over the candidates ends by exhaustion or with the write: a success return while the iterator is still
+		// valid and nothing was written leaves the disputed aggregate of a later candidate unflagged
+		{
+			pw := AnalyzePaths(fl, []Atom{
+				{Name: "valid", Cond: func(rel *Term) (bool, bool) {
+					if strings.HasPrefix(rel.Op, "call:") && strings.HasSuffix(rel.Op, ".Valid") {
+						return true, true
+					}
+					return false, false
+				}},
+				{Name: "written", Event: P.CallEvent(descIs("coll:x/oracle/keeper.Keeper.Aggregates.Set"), T)}})
+			n, okAll, det := 0, true, ""
+			for _, ret := range SuccessReturns(fl) {
+				n++
+				if bad := pw.Require(ret, func(v map[string]bool) bool { return v["written"] || !v["valid"] }); len(bad) > 0 {
+					okAll, det = false, fmt.Sprintf("success return at %s with candidates left and nothing written: %v", P.Pos(ret.Pos()), bad)
+				}
+			}
+			if len(pw.Matched["valid"]) == 0 {
+				okAll, det = false, "no branch tests the iterator's Valid()"
+			}
+			r.check(okAll && n >= 2, "FLAG-ONLY", "(x/oracle/keeper.Keeper).FlagAggregateReport # every candidate is examined until one is flagged", P.Pos(fl.Pos()), fmt.Sprintf("%d success returns %s", n, det))
+		}
 		// only Flagged is stored into the aggregate
 		fields := map[string]bool{}
 		for _, b := range fl.Blocks {
